@@ -120,6 +120,8 @@ def make_fv(itp, qualname):
 def run_case(cls, case_idx, timeout_ms=None):
     """symbolically execute one contract case; returns a picklable dict"""
     T.reset_fresh()
+    from vf.engine import vc as _vc
+    _vc.RETRY_LEFT[0] = int(os.environ.get("VF_RETRIES_PER_CASE", "4"))
     c = cls()
     case = dict(cls.cases[case_idx])
     label = c.case_label(case)
